@@ -110,6 +110,9 @@ FlattenApplies(kind, ms) == kind \in {"tuple", "list", "set"} /\ Len(ms) >= 1
 Flatten(neg, x, ms) == IF neg THEN B(\A j \in DOMAIN ms : Truthy(Rich(x, "!=", ms[j])))
                               ELSE B(\E j \in DOMAIN ms : Truthy(Rich(x, "==", ms[j])))
 MemberImpl(kind, neg, x, ms) == IF FlattenApplies(kind, ms) THEN Flatten(neg, x, ms) ELSE MemberRef(kind, neg, x, ms)
+\* FlattenInListTransform evaluates the non-simple members into temporaries *before* the left operand
+FlattenLog(kind, ms, leaves) == IF FlattenApplies(kind, ms) /\ leaves THEN [i \in 1..(Len(ms) + 1) |-> IF i <= Len(ms) THEN i ELSE 0]
+                                ELSE [i \in 1..(Len(ms) + 1) |-> i - 1]
 \* the two ways in which dropping identity and hashing can show
 IdentityOnly(x, ms) == /\ \E j \in DOMAIN ms : ms[j] = x
                        /\ ~\E j \in DOMAIN ms : Truthy(Rich(ms[j], "==", x))
@@ -123,8 +126,12 @@ StrinRef(kind, neg, x, cs) ==
   ELSE IF x.k = "bytes" THEN B(IsSub(x.cs, cs) # neg)
   ELSE IF x.k = "int" THEN (IF x.v \in 0..255 THEN B((x.v \in Range(cs)) # neg) ELSE "E:ValueError")
   ELSE "E:TypeError"
-\* a C integer x: operand coerced to `char`, then __Pyx_BytesContains
-BytesImplCInt(neg, v, cs) == B((\E j \in DOMAIN cs : (cs[j] - v) % 256 = 0) # neg)
+\* a C integer x (int, long, unsigned char): with two or more distinct bytes in the literal SwitchTransform
+\* compares x with `char` constants (case '\xe9': is negative where char is signed); otherwise the operand
+\* is coerced to `char` and passed to __Pyx_BytesContains
+SChar(b) == IF b >= 128 THEN b - 256 ELSE b
+BytesImplCInt(neg, v, cs) == IF Cardinality(Range(cs)) >= 2 THEN B((\E j \in DOMAIN cs : SChar(cs[j]) = v) # neg)
+                             ELSE B((\E j \in DOMAIN cs : (cs[j] - v) % 256 = 0) # neg)
 
 ---------------------------------------------------------------------------
 (* switch: chains of arms; an arm is [f |-> "eq", ls] (x == l1 or x == l2 / x in (l1, l2))      *)
@@ -247,11 +254,13 @@ MemberHazard == MemberImpl(c.kind, c.neg, c.x, c.ms) # MemberRef(c.kind, c.neg, 
 FlattenOffHazards == (Part = "member" /\ pc = "done") =>
              (MemberHazard => (FlattenApplies(c.kind, c.ms) /\ MemberWhy(c.kind, c.x, c.ms) # "none"))
 FlattenStrict == (Part = "member" /\ pc = "done") => ~MemberHazard
+FlattenOrderStrict == (Part = "member" /\ pc = "done") => FlattenLog(c.kind, c.ms, TRUE) = log
 
 StrinHazard == c.cint /\ c.kind = "bytes" /\ c.x.k = "int" /\ BytesImplCInt(c.neg, c.x.v, c.cs) # out
 StrinOK == (Part = "strin" /\ pc = "done") =>
              /\ out \in Results
-             /\ (StrinHazard => c.x.v \notin 0..255)     \* the char coercion is exact on byte values
+             \* the C paths are exact on 7-bit values, and on all byte values when no switch is built
+             /\ (StrinHazard => (c.x.v \notin 0..255 \/ (c.x.v >= 128 /\ Cardinality(Range(c.cs)) >= 2)))
 StrinStrict == (Part = "strin" /\ pc = "done") => ~StrinHazard
 
 SwitchHazard == \E x \in Subjects : SwitchImpl(c.fam, c.arms, x) # Sequential(c.arms, x)
@@ -268,8 +277,10 @@ Publish == pc = "done" =>
    CASE Part = "chain"  -> PrintT("@@" \o ToJson([p |-> "c", id |-> c.id, vals |-> c.vals, out |-> out, n |-> Len(log)]))
      [] Part = "member" -> PrintT("@@" \o ToJson([p |-> "m", id |-> c.id, x |-> c.x, ms |-> c.ms, out |-> out, n |-> Len(log),
                                                    hz |-> MemberHazard, why |-> MemberWhy(c.kind, c.x, c.ms),
+                                                   ilog |-> FlattenLog(c.kind, c.ms, TRUE),
                                                    impl |-> MemberImpl(c.kind, c.neg, c.x, c.ms)]))
-     [] Part = "strin"  -> PrintT("@@" \o ToJson([p |-> "s", id |-> c.id, x |-> c.x, out |-> out, hz |-> StrinHazard]))
+     [] Part = "strin"  -> PrintT("@@" \o ToJson([p |-> "s", id |-> c.id, x |-> c.x, out |-> out, hz |-> StrinHazard,
+                                                   impl |-> IF c.cint /\ c.kind = "bytes" /\ c.x.k = "int" THEN BytesImplCInt(c.neg, c.x.v, c.cs) ELSE out]))
      [] Part = "switch" -> PrintT("@@" \o ToJson([p |-> "w", fam |-> c.fam, arms |-> c.arms, els |-> c.els, row |-> out,
                                                    sw |-> IsSwitch(c.fam, c.arms), hz |-> SwitchHazard]))
 =============================================================================
